@@ -226,6 +226,14 @@ impl FixtureDatabase {
         names
     }
 
+    /// The name of the Python function (or assignment target) that defines the fixture: the
+    /// text of its name span. Differs from the fixture name for `@pytest.fixture(name=...)`.
+    fn function_name_of(&self, def: &FixtureDefinition) -> Option<String> {
+        let content = self.get_file_content(&def.file_path)?;
+        let line = content.lines().nth(def.line.checked_sub(1)?)?;
+        line.get(def.start_char..def.end_char).map(str::to_string)
+    }
+
     /// Order same-named definitions of one priority tier by where they are, so that the
     /// choice among them never depends on registration order. Paths are compared from the
     /// file name upwards, which keeps the order stable when the workspace is moved.
@@ -262,17 +270,34 @@ impl FixtureDatabase {
         // Earlier same-named definitions in the file are dead (the name was rebound): when
         // the last one is filtered out - it is the fixture asking for its own name - the
         // lookup goes outward, not back to an overwritten definition.
-        if let Some(last_def) = definitions
+        let last_in_file = definitions
             .iter()
             .filter(|def| def.file_path == file_path)
-            .max_by_key(|def| def.line)
-            .filter(|def| filter(def))
-        {
+            .max_by_key(|def| def.line);
+        if let Some(last_def) = last_in_file.filter(|def| filter(def)) {
             info!(
                 "Found fixture {} in same file at line {}",
                 fixture_name, last_def.line
             );
             return Some(last_def.clone());
+        }
+        // ... unless the earlier definition is a different function that carries the same
+        // fixture name (`@pytest.fixture(name="client") def client_override(client)` after
+        // `def client()`): that one is not overwritten, it is what the override requests.
+        if let Some(last_def) = last_in_file {
+            let last_function = self.function_name_of(last_def);
+            if let Some(earlier) = definitions
+                .iter()
+                .filter(|def| {
+                    def.file_path == file_path
+                        && def.line < last_def.line
+                        && filter(def)
+                        && self.function_name_of(def) != last_function
+                })
+                .max_by_key(|def| def.line)
+            {
+                return Some(earlier.clone());
+            }
         }
 
         // Priority 1b: Fixtures the file imports itself
